@@ -687,6 +687,50 @@ def part_default_paths(ctx, shard):
     world.reset_world()
 
 
+def part_edit_arguments(ctx, shard):
+    """quantities handed to a registry edit (modify / add / define_unit with a quantity value) are only read: exported
+    constants, exported units and quantities bound to ANOTHER registry are what they were, bit for bit"""
+    import unyt.physical_constants as pc
+
+    for which in shard:
+        world.reset_world()
+        other = UnitRegistry()
+        other.add("foo", 3.0, DIMS["length"])
+        donors = {
+            "exported-constant-cgs": lambda: pc.mass_sun_cgs,
+            "exported-constant-mks": lambda: pc.clight,
+            "top-level-constant": lambda: unyt.G,
+            "exported-unit-product": lambda: 5.0 * unyt.km,
+            "quantity-of-another-registry": lambda: unyt.unyt_quantity(2.0, "foo", registry=other),
+            "held-quantity-cgs": lambda: unyt.unyt_quantity(4.0, "g"),
+        }
+        q = donors[which]()
+        before = (np.array(np.asarray(q.d), copy=True), str(q.units), float(q.units.base_value), q.units.registry)
+        for edit in ("modify", "define_unit", "modify-twice"):
+            r = UnitRegistry()
+            r.add("code_x", 2.0, q.units.dimensions)
+            ctx.count("evaluations")
+            try:
+                if edit == "define_unit":
+                    from unyt.unit_object import define_unit
+
+                    define_unit("code_y", q, registry=r)
+                else:
+                    r.modify("code_x", q)
+                    if edit == "modify-twice":
+                        r.modify("code_x", q)
+            except Exception:  # noqa: BLE001
+                ctx.count("edit_refused")
+            ctx.decided(("edit-argument", which, edit))
+            after = (np.asarray(q.d), str(q.units), float(q.units.base_value), q.units.registry)
+            if not np.array_equal(after[0], before[0]) or after[1] != before[1] or after[2] != before[2] or after[3] is not before[3]:
+                ctx.violation(f"C13|edit-argument|donor={which}|edit={edit}|mode=argument-of-a-registry-edit-was-changed",
+                              {"part": "edit-argument", "donor": which, "edit": edit}, (before[0].tolist(), before[1]), (np.asarray(after[0]).tolist(), after[1]))
+        if namespace_digest() != _NS_PROBE or builtin_conversions() != _BUILTIN_CONV:
+            ctx.violation(f"C13|edit-argument|donor={which}|mode=exported-names-changed", {"part": "edit-argument", "donor": which}, None, None)
+    world.reset_world()
+
+
 def part_ctor_cross(ctx, shard):
     """constructors handed a Unit OBJECT of one registry together with registry=<another>: the data are bound to the
     registry that was asked for (its table decides what the unit text means from then on), whether or not the two tables
@@ -751,6 +795,7 @@ def run(ctx):
                                     ("array(Unit-of-b, registry=a)", "quantity(Unit-of-b, registry=a)", "array(str, registry=a)", "array(Unit-of-b)"),
                                     ("none", "modify-a", "modify-b")))
     harness.pmap(ctx, part_ctor_cross, [combos[i::8] for i in range(8)])
+    harness.pmap(ctx, part_edit_arguments, [[d] for d in ("exported-constant-cgs", "exported-constant-mks", "top-level-constant", "exported-unit-product", "quantity-of-another-registry", "held-quantity-cgs")])
     return {
         "coverage": {
             "default_paths": list(DEFAULT_PATHS),
@@ -775,6 +820,9 @@ def run(ctx):
 
 def replay(case):
     ctx = harness.Ctx(PROPERTY, "quick", 0)
+    if case.get("part") == "edit-argument":
+        part_edit_arguments(ctx, [case["donor"]])
+        return list(ctx.violations.items())
     if case.get("part") == "ctor-cross":
         part_ctor_cross(ctx, [(case["twin"], case["warm"], case["how"], case["edit"])])
         return list(ctx.violations.items())
